@@ -298,6 +298,15 @@ func storesToGlobalsIn(fns []*ssa.Function, pos func(*ssa.Function, ssa.Instruct
 	return out
 }
 
+// checkStateless: the library keeps nothing between calls (no store into package-level memory in randomness, fft, detect).
+// Necessary wherever a property compares two calls: the parallel workflows call the tests concurrently (a cache or shared
+// scratch is a race, or makes the verdict depend on what ran before), entry points must agree call after call, a workflow's
+// verdict must depend on its own samples only.
+func checkStateless(c *Check, p *Prog) {
+	nf, gl := globalWrites(p, []string{pkgRoot, pkgFFT, pkgDetect})
+	c.Expect(len(gl) == 0, "R-STATELESS", "library", "structs.go:30", fmt.Sprintf("none of the %d functions of randomness, fft and detect stores into memory rooted in a package-level variable: no cache, memo or shared scratch links one call to another", nf), strings.Join(gl, "; "))
+}
+
 func globalWrites(p *Prog, pkgs []string) (int, []string) {
 	var fns []*ssa.Function
 	for _, fn := range p.AllSrcFuncs() {
